@@ -935,16 +935,114 @@ def setup(ctx):
         "the HDF5 (h5netcdf) and TIFF (PIL) containers return what they are handed (dtype, values, coords): exercised, not modelled",
         "purity of the real Python objects (deep snapshots before/after every call)",
         "float32 storage error of depth='float'", "load_average(refimg=...) cropping and metadata copy",
-        "multi-channel TIFF (dummy channel, channel order) compared by label"]
+        "multi-channel TIFF (dummy channel, channel order) compared by label",
+        "what load / load_image / load_average return is a function of the file: a path overwritten with another image of the same "
+        "shape, depth and metadata text (twice, within the same second) reads back as the new content each time"]
     ctx.trusted += ["oracle: PyYAML dump/load of attribute values and of the _attr_coords table (hypotheses yaml_value / yaml_table; exercised on every case)",
                     "oracle: h5netcdf / xarray.to_netcdf and PIL TIFF containers (identity on data; explored)",
                     "oracle: numpy sqrt in to_vector (norm handed to the model) and in Accumulator.std (s*s = var checked in Coq per pixel)",
                     "oracle: numpy astype(int) = truncation (Qfloor on non-negative values; Int_part in the theorems, linked by quantiser_agrees_on_Q)"]
 
 
+# ---------------------------------------------------------------------------
+# stage: a file that is overwritten (same path, same shape / depth / metadata text, within the same second) and read
+# again must give the NEW content: what load returns is a function of the file, not of the history of reads
+
+def overwrite_case(tmp, nx, ny, fmt, depth, vals, tag):
+    """-> list of (what, err, bound) for the reads after the overwrite"""
+    import numpy as np
+    import holopy as hp
+    from PIL import Image
+    from holopy.core.metadata import data_grid
+    A = np.array(vals, dtype=float).reshape(nx, ny)
+    B = A.ravel()[::-1].reshape(nx, ny).copy()           # a permutation: same min / max / metadata text / file size
+    kw = dict(spacing=0.5, medium_index=1.33, illum_wavelen=0.66, illum_polarization=(1, 0), name="ow")
+    imA, imB = data_grid(A, **kw), data_grid(B, **kw)
+    path = os.path.join(tmp, "ow%s%s" % (tag, fmt))
+    lo, hi = float(A.min()), float(A.max())
+    bits = {8: 8, 16: 15, 32: 31}.get(depth)
+    bound = 1e-12 if fmt == ".h5" else ((hi - lo) * (0.5 + 1e-6) / (2 ** bits - 1) + 1e-12 * (abs(lo) + abs(hi) + 1))
+    out = []
+
+    def write(im):
+        if fmt == ".h5":
+            hp.save(path, im)
+        elif depth == 8:
+            hp.save(path, im)
+        else:
+            hp.save_image(path, im, depth=depth)
+
+    def reads(B_now):
+        r = hp.load(path)
+        out.append(("load", float(np.abs(r.values[0] - B_now).max()), bound))
+        if fmt != ".h5":
+            li = hp.load_image(path, spacing=0.5)
+            raw = np.asarray(Image.open(path)).astype(float)
+            out.append(("load_image", float(np.abs(li.values[0] - raw).max()), 0.0))
+            from holopy.core.io import load_average
+            av = load_average([path], spacing=0.5)
+            out.append(("load_average", float(np.abs(av.values[0] - raw).max()), 1e-9 * (1 + float(np.abs(raw).max()))))
+    with warnings.catch_warnings():
+        warnings.simplefilter("ignore")
+        write(imA)
+        reads(A)
+        first = len(out)
+        write(imB)
+        reads(B)
+        write(imA)
+        reads(A)
+    return out, first
+
+
+def stage_overwrite(ctx, tmp):
+    rng = ctx.subrng("overwrite")
+    for k in range(ctx.n(18, 120)):
+        nx, ny = rng.choice([2, 3, 5, 8]), rng.choice([2, 3, 4, 7])
+        fmt = rng.choice([".tif", ".tif", ".tiff", ".h5"])
+        depth = 8 if fmt == ".h5" else rng.choice([8, 8, 16])
+        vals = [rng.randint(0, 4096) / 16.0 for _ in range(nx * ny)]
+        vals[0], vals[-1] = 0.0, 300.0                       # first and last pixel differ widely: the reversed image is another image
+        meta = dict(kind="overwrite", case=k, nx=nx, ny=ny, fmt=fmt, depth=depth, vals=vals)
+        ctx.explored += 1
+        ctx.count("overwrite:%s:depth-%s" % (fmt, depth))
+        ctx.nontriv(("overwrite", fmt, depth, nx, ny))
+        res, first = overwrite_case(tmp, nx, ny, fmt, depth, vals, str(k))
+        bad = [(i, w, e, b) for i, (w, e, b) in enumerate(res) if not e <= b]
+        if any(i < first for i, *_ in bad):
+            continue                                          # the first write / read pair itself is judged by the tiff / h5 stages
+        if bad:
+            i, w, e, b = bad[0]
+            ctx.violation("overwrite:%s" % w, "after a file was overwritten (same path, shape, depth and metadata), %s returns content that "
+                          "is not the file's: error %.3g (bound %.3g)" % (w, e, b), dict(meta, reads=[(w, e, b) for w, e, b in res]))
+
+
+# source tie: grid coordinates (core/metadata.py) and the TIFF quantiser of _save_im (core/io/io.py) as written now
+def _src_items():
+    from harness.lib import pygrid
+    return [dict(file="holopy/core/metadata.py", qualname="make_coords", name="make_coords_src", fn=pygrid.make_coords),
+            dict(file="holopy/core/metadata.py", qualname="data_grid", name="data_grid_src", fn=pygrid.data_grid),
+            dict(file="holopy/core/io/io.py", qualname="_save_im", name="save_im_src", fn=pygrid.save_im_quant)]
+
+
+def stage_srctie(ctx):
+    from harness.lib import srctie
+    ok = srctie.run(ctx, "C16", "From Coq Require Import Lia.\nFrom HV Require Import C16.Model C16.Lemmas C16.Props.\n", _src_items())
+    ctx.count("srctie:%s" % ("ok" if ok else "broken"))
+
+
 def run(ctx):
     setup(ctx)
+    ctx.trusted.append("source reader harness/lib/pygrid.py (an axis read as its generic element over np.arange's index; python floats "
+                       "read as the reals their decimal text denotes; 2**depth read as 2^depth; call arguments compared as text) for the source tie")
+    ctx.clauses_proved.append(
+        "source tie: make_coords / data_grid of core/metadata.py, read from the current source text on every run, build the model's "
+        "coordinate dictionary (keys, order, shape indices, np.expand_dims axis); pixel (i,j) = (i s_x, j s_y) restated for the source; "
+        "_save_im of core/io/io.py: the depth chain gives 8 / 15 / 31 bits and refuses the rest, the value handed to astype is the "
+        "model quantiser's argument, so the quantisation error bound and the end points hold for the source's expression "
+        "[make_coords_src_is_model, src_pixel_coords, save_im_bits_src_spec, save_im_quant_src_is_model, src_quantiser_error, "
+        "src_quantiser_endpoints]")
     guarded(ctx, "prove", ctx.prove)
+    guarded(ctx, "source-tie", stage_srctie, ctx)
     boot.boot()
     tmp = tempfile.mkdtemp(prefix="C16-run-", dir="/tmp")
     try:
@@ -954,6 +1052,7 @@ def run(ctx):
         guarded(ctx, "tiff", stage_tiff, ctx, tmp)
         guarded(ctx, "load_image", stage_load_image, ctx, tmp)
         guarded(ctx, "average", stage_average, ctx, tmp)
+        guarded(ctx, "overwrite", stage_overwrite, ctx, tmp)
     finally:
         shutil.rmtree(tmp, ignore_errors=True)
 
@@ -989,6 +1088,12 @@ def replay(ctx, data):
             bad = [f for f in diff_fields(want, got) if kind != "tiff" or f.startswith("attrs.") or f == "name"]
             print("replay: fields that differ after save/load: %s" % bad)
             if bad:
+                ctx.violation(data["key"], data["what"], d)
+        elif kind == "overwrite":
+            ctx.explored += 1
+            res, first = overwrite_case(tmp, d["nx"], d["ny"], d["fmt"], d["depth"], d["vals"], "r")
+            print("replay: reads (what, error, bound):", res)
+            if any(not e <= b for w, e, b in res[first:]):
                 ctx.violation(data["key"], data["what"], d)
         elif kind == "average":
             from PIL import Image
